@@ -462,6 +462,8 @@ def main(seed, ncases, driver, out, mode="all"):
         P = gen_problem(rnd, hermitian, force)
         while mode == "nhsafe" and d5_class(P): P = gen_problem(rnd, hermitian, None)      # (formats stream: non-Hermitian problems outside the class of finding D5)
         maxn = (3,) if P["k"] == 1 else (2, 1)
+        if c % 5 == 4 and P["d"] <= 4:      # small problems to higher order (deletion of once-used terms, longer recurrences)
+            maxn = (5,) if P["k"] == 1 else (3, 2); stats["higher orders"] = stats.get("higher orders", 0) + 1
         reqs = [(nm, i, j, n) for n in itertools.product(*[range(m + 1) for m in maxn]) for nm in ("H_tilde", "U", "U†") for i in range(P["N"]) for j in range(P["N"])]
         rnd.shuffle(reqs)
         t0 = time.time()
